@@ -220,3 +220,147 @@ def check_candle_geometry_pure(prop: str, res: Result, repo: Repo):
         else:
             for root, node, why in eff.effect_sites(m)[:2]:
                 res.fail(rule, finding(prop, rule, m, node, f"Candle.{nm} stores state on the candle ({why}): a bucket that is merged into after a pattern looked at it keeps its pre-merge geometry, so live and batch results differ"))
+
+
+def check_regkey(prop: str, res: Result, repo: Repo):
+    """R-REGKEY: a timeframe is spelled the same way by the indicator (key used to look its manager up) and by the manager (key it is
+    registered under): both apply the same canonicalisation (upper-case / enum value) and nothing else"""
+    rule = "R-REGKEY"
+    vt = repo.func("hexital.utils.timeframe", "validate_timeframe")
+    cm = repo.method("hexital.core.candle_manager", "CandleManager", "__init__")
+
+    def forms(fn, target_pred, param):
+        out = set()
+        for n in ast.walk(fn.node):
+            if isinstance(n, ast.Assign) and any(target_pred(t) for t in n.targets):
+                out.add(ast.unparse(n.value).replace(param, "<tf>"))
+        return out
+
+    vparam = next((a.arg for a in vt.node.args.args), "timeframe")
+    vforms = forms(vt, lambda t: isinstance(t, ast.Name) and t.id == vparam, vparam)
+    mparam = "timeframe"
+    mforms = forms(cm, lambda t: ast.unparse(t) == "self.timeframe", mparam)
+    if mforms == {"validate_timeframe(<tf>)"} or (mforms and mforms == vforms):
+        res.ok(rule, {"indicator side": sorted(vforms), "manager side": sorted(mforms), "why": "same spelling on both sides of the registry"}, nontrivial="regkey")
+    else:
+        res.fail(rule, finding(prop, rule, cm, cm.node, f"CandleManager spells its timeframe by {sorted(mforms)} while indicators are looked up by {sorted(vforms)}: a manager registered under one spelling is not found under the other, so a second manager is created and the first one is no longer fed", construct="CandleManager.__init__: timeframe spelling " + ", ".join(sorted(mforms))))
+    nm = repo.cls("hexital.core.candle_manager", "CandleManager").methods.get("name")
+    if nm is not None:
+        rets = [ast.unparse(n.value) for n in ast.walk(nm.node) if isinstance(n, ast.Return) and n.value is not None]
+        if rets == ["self.timeframe if self.timeframe else DEFAULT_CANDLES"]:
+            res.ok(rule, {"site": nm.where, "name": rets[0]})
+        else:
+            res.fail(rule, finding(prop, rule, nm, nm.node, "CandleManager.name must be its timeframe (DEFAULT_CANDLES without one)", construct="CandleManager.name: " + "; ".join(rets)))
+
+
+def check_registry_order(prop: str, res: Result, repo: Repo):
+    """R-REGORDER: indicators are registered (and therefore calculated) in the order they were given, whatever form each has: an
+    indicator whose input is another indicator's output is calculated after it"""
+    rule = "R-REGORDER"
+    vi = repo.method("hexital.core.hexital", "Hexital", "_validate_indicators")
+    param = next((a.arg for a in vi.node.args.args if a.arg != "self"), "indicators")
+    ret = [n.value for n in ast.walk(vi.node) if isinstance(n, ast.Return) and isinstance(n.value, ast.Name)]
+    if not ret:
+        res.errors.append(f"{vi.where}: _validate_indicators does not return a named registry")
+        return
+    reg = ret[-1].id
+    writers = []
+    for n in ast.walk(vi.node):
+        if isinstance(n, ast.For):
+            if any(isinstance(st, ast.Assign) and any(isinstance(t, ast.Subscript) and ast.unparse(t.value) == reg for t in st.targets) for st in ast.walk(n)):
+                writers.append(n)
+        if isinstance(n, ast.Assign) and any(isinstance(t, ast.Name) and t.id == reg for t in n.targets) and isinstance(n.value, (ast.DictComp, ast.Call)) and not (isinstance(n.value, ast.Call) and not n.value.args and not n.value.keywords):
+            writers.append(n)
+    loops = [w for w in writers if isinstance(w, ast.For)]
+    if len(writers) == 1 and len(loops) == 1 and ast.unparse(loops[0].iter) == param:
+        res.ok(rule, {"site": vi.where, "why": f"one loop over `{param}` fills the registry: insertion order = given order"}, nontrivial="regorder")
+    else:
+        res.fail(rule, finding(prop, rule, vi, writers[1] if len(writers) > 1 else vi.node, "the registry is filled by more than one pass over the given indicators (e.g. objects first, dicts later): the calculation order no longer follows the given order, so a chained indicator can be calculated before its input", construct=f"_validate_indicators: {len(writers)} registry writers"))
+
+
+def check_name_matching(prop: str, res: Result, repo: Repo):
+    """R-SELECT: Hexital resolves indicators by exact name only: no prefix / suffix / substring matching on names anywhere in the class"""
+    rule = "R-SELECT"
+    hx = repo.cls("hexital.core.hexital", "Hexital")
+    bad = 0
+    for nm, m in hx.methods.items():
+        for n in ast.walk(m.node):
+            if isinstance(n, ast.Call) and isinstance(n.func, ast.Attribute) and n.func.attr in ("startswith", "endswith", "find", "rfind", "match", "search", "fullmatch"):
+                bad += 1
+                res.fail(rule, finding(prop, rule, m, n, f"Hexital.{nm} matches indicator names by {n.func.attr}(): 'SMA_3' then also answers for 'SMA_3_T5' or 'SMA_30' (the wrong series / manager)"))
+            if isinstance(n, ast.Compare) and len(n.ops) == 1 and isinstance(n.ops[0], (ast.In, ast.NotIn)):
+                rhs = ast.unparse(n.comparators[0])
+                if "_indicators" in rhs or "_candles" in rhs or isinstance(n.comparators[0], (ast.Tuple, ast.List, ast.Set, ast.Dict)):
+                    continue
+                if isinstance(n.comparators[0], ast.Name) and "name" in rhs:
+                    bad += 1
+                    res.fail(rule, finding(prop, rule, m, n, f"Hexital.{nm} tests a name by substring containment"))
+    if not bad:
+        res.ok(rule, {"class": "Hexital", "why": "names are compared with == / looked up as dictionary keys only"}, nontrivial="exact-names")
+
+
+def check_selection(prop: str, res: Result, repo: Repo):
+    """R-SELECT: an operation given a name touches that indicator only; 'all indicators' is reachable only when no name was given"""
+    rule = "R-SELECT"
+    hx = repo.cls("hexital.core.hexital", "Hexital")
+    todo = [hx.methods[n] for n in ("purge", "calculate", "calculate_index") if n in hx.methods]
+    seen = set()
+
+    def enumerates_all(node) -> bool:
+        t = ast.unparse(node)
+        return "self._indicators.items()" in t or "self._indicators.values()" in t or t == "self._indicators"
+
+    while todo:
+        m = todo.pop()
+        if m.name in seen:
+            continue
+        seen.add(m.name)
+        params = [a.arg for a in m.node.args.args]
+        np = "name" if "name" in params else None
+        for c in calls_in(m.node):
+            if isinstance(c.func, ast.Attribute) and ast.unparse(c.func.value) == "self" and c.func.attr in hx.methods and c.func.attr.startswith("_") and any("name" in ast.unparse(a) for a in list(c.args) + [k.value for k in c.keywords]):
+                todo.append(hx.methods[c.func.attr])
+        if np is None:
+            continue
+        n_sites = 0
+        for p in stmt_paths(m.node.body):
+            conds = []
+            for item in p:
+                if isinstance(item, tuple) and item and item[0] == "if":
+                    conds.append((item[1].test, item[2]))
+                    continue
+                st = item
+                if not isinstance(st, ast.AST):
+                    continue
+                expr = st.iter if isinstance(st, ast.For) else st
+                if not enumerates_all(expr):
+                    continue
+                n_sites += 1
+                dominated = any((ast.unparse(t) == f"{np} is None" and truth) or (ast.unparse(t) == f"{np} is not None" and not truth) for t, truth in conds)
+                filtered = False
+                if isinstance(st, ast.For):
+                    filtered = all(isinstance(b, ast.If) and any(isinstance(x, ast.Compare) and isinstance(x.ops[0], ast.Eq) and np in {ast.unparse(x.left), ast.unparse(x.comparators[0])} for x in ast.walk(b.test)) for b in st.body)
+                if dominated or filtered:
+                    res.ok(rule, {"site": f"{m.where} {norm_construct(expr)[:80]}", "why": "all indicators only when no name is given / filtered by name equality"}, nontrivial=f"select:{m.name}")
+                else:
+                    res.fail(rule, finding(prop, rule, m, st, f"Hexital.{m.name} can run over every indicator although a name was given (e.g. a name that is not registered): an operation aimed at one indicator then purges / recalculates the others"))
+    return
+
+
+def check_lifespan_flow(prop: str, res: Result, repo: Repo):
+    """R-TRIM: the lifespan the trim predicate subtracts is the very timedelta the user configured (stored as given, compared as a timedelta)"""
+    rule = "R-TRIM"
+    cm = repo.method("hexital.core.candle_manager", "CandleManager", "__init__")
+    st = [n for n in ast.walk(cm.node) if isinstance(n, ast.Assign) and any(ast.unparse(t) == "self.candles_lifespan" for t in n.targets)]
+    if len(st) == 1 and isinstance(st[0].value, ast.Name) and st[0].value.id in [a.arg for a in cm.node.args.args]:
+        res.ok(rule, {"site": cm.where, "store": ast.unparse(st[0])}, nontrivial="lifespan:store")
+    else:
+        res.fail(rule, finding(prop, rule, cm, st[0] if st else cm.node, "CandleManager must keep the configured lifespan unchanged (self.candles_lifespan = <parameter>): a converted / reduced value changes which candles are retained", construct="CandleManager.__init__: candles_lifespan"))
+    # timedelta components are never a substitute for the whole span
+    for mod in ("hexital.core.candle_manager", "hexital.utils.timeframe", "hexital.core.hexital"):
+        mi = repo.module(mod)
+        for n in ast.walk(mi.tree):
+            if isinstance(n, ast.Attribute) and n.attr in ("seconds", "microseconds") and isinstance(n.ctx, ast.Load) and not (isinstance(n.value, ast.Name) and n.value.id in ("self",)):
+                par_call = False
+                res.fail("R-UNITS", finding(prop, "R-UNITS", mi, n, f"`.{n.attr}` is only the sub-day component of a timedelta (use total_seconds()): spans of a day or more are silently reduced"))
+    res.ok("R-UNITS", {"modules": 3, "why": "no timedelta component (.seconds/.microseconds) stands in for a span"})
